@@ -26,6 +26,7 @@ EXTENDS Naturals, Sequences, FiniteSets, TLC
 CONSTANTS Callers,      \* set of caller ids (model values or numbers)
           MutsPer,      \* mutations issued by each caller, one after another
           NestCodes,    \* {10*caller + k}: that mutation's handler nests one Add
+          PrepCodes,    \* {10*caller + k}: that operation is Eval / CanAdd: PrependMut, no queue tick
           Recheck       \* repaired code: re-check the queue after releasing the flag
 
 VARIABLES pc,        \* caller -> gate it is parked at
@@ -45,6 +46,8 @@ vars == <<pc, k, queue, qtick, pending, qlen, processing, owner, popped, ticks, 
 NestOf == {<<c, i>> : c \in Callers, i \in 1..MutsPer} \cap
           {x \in Callers \X (1..MutsPer) : 10 * x[1] + x[2] \in NestCodes}
 
+IsPrep(c, i) == 10 * c + i \in PrepCodes
+
 Id(c, i) == <<c, i>>                \* mutation i of caller c
 NestId(c, i) == <<c, i, "nested">>
 
@@ -61,7 +64,7 @@ Assign(f, x, v) == [y \in DOMAIN f \cup {x} |-> IF y = x THEN v ELSE f[y]]
 
 (* queueMutation: append under queueMx; the tick is pending + queueTick        *)
 QAppend(c) ==
-  /\ pc[c] = "start" /\ k[c] <= MutsPer
+  /\ pc[c] = "start" /\ k[c] <= MutsPer /\ ~IsPrep(c, k[c])
   /\ LET id == Id(c, k[c])
          t == pending + 1 + qtick
      IN /\ queue' = Append(queue, [id |-> id, tick |-> t])
@@ -70,6 +73,16 @@ QAppend(c) ==
   /\ qlen' = qlen + 1
   /\ pc' = [pc EXCEPT ![c] = "qm.done"]
   /\ UNCHANGED <<k, qtick, processing, owner, popped, results>>
+
+(* Eval / CanAdd / CanRemove: PrependMut (machine.go:813-852) puts the entry  *)
+(* at the FRONT without a queue tick and falls straight into processQueue;    *)
+(* there is no hook between the prepend and pq.enter                          *)
+Prepend(c) ==
+  /\ pc[c] = "start" /\ k[c] <= MutsPer /\ IsPrep(c, k[c])
+  /\ queue' = <<[id |-> Id(c, k[c]), tick |-> 0]>> \o queue
+  /\ qlen' = qlen + 1
+  /\ pc' = [pc EXCEPT ![c] = "pq.enter"]
+  /\ UNCHANGED <<k, qtick, pending, processing, owner, popped, ticks, results>>
 
 (* processQueue entry: `if m.queueLen.Load() == 0 return Canceled`             *)
 Enter(c) ==
@@ -113,7 +126,7 @@ FirstPop(c) ==
 (* tick, CAS lost, Queued), then loop test and next pop                       *)
 RunThenPop(c) ==
   /\ pc[c] = "pq.popped"
-  /\ LET id == popped[Len(popped)]
+  /\ LET id == IF popped = <<>> THEN <<0, 0>> ELSE popped[Len(popped)]
          nests == Len(id) = 2 /\ id \in NestOf
          nid == NestId(id[1], id[2])
          t == pending + 1 + qtick
@@ -154,7 +167,7 @@ Return(c) ==
   /\ UNCHANGED <<queue, qtick, pending, qlen, processing, owner, popped, ticks, results>>
 
 Step(c) ==
-  \/ QAppend(c) \/ Enter(c) \/ Cas(c) \/ Lost(c) \/ FirstPop(c) \/ RunThenPop(c)
+  \/ QAppend(c) \/ Prepend(c) \/ Enter(c) \/ Cas(c) \/ Lost(c) \/ FirstPop(c) \/ RunThenPop(c)
   \/ Release(c) \/ QEnd(c) \/ Finish(c) \/ Return(c)
 
 Next == \E c \in Callers : Step(c)
@@ -184,7 +197,7 @@ TickOrder ==
        => ticks[popped[i]] < ticks[popped[j]]
 
 (* the machine's queue tick counts exactly the ticked mutations popped so far  *)
-TickCount == qtick = 1 + Len(popped)
+TickCount == qtick = 1 + Cardinality({i \in 1..Len(popped) : popped[i] \in DOMAIN ticks})
 
 (* a mutation issued from inside a handler is queued, never run nested         *)
 NoNesting == \A id \in DOMAIN results : (Len(id) = 3) => results[id] = "queued"
@@ -193,4 +206,8 @@ NoNesting == \A id \in DOMAIN results : (Len(id) = 3) => results[id] = "queued"
 EventuallyProcessed ==
   \A c \in Callers : \A i \in 1..MutsPer :
      (Id(c, i) \in DOMAIN ticks) ~> (\E j \in 1..Len(popped) : popped[j] = Id(c, i))
+
+(* a tick handed out counts the TICKED mutations only (prepended checks and    *)
+(* evals waiting in the queue do not move it)                                  *)
+
 =============================================================================
